@@ -2,8 +2,10 @@
    Per run: a local change is ahead of every identical copy, and applying the replicated record to an identical
    copy yields an identical copy.  Per step (C03_sync_step): a peer that holds the same runs as the sender held
    before the event holds the same runs as the sender afterwards, pattern by pattern and in the same order -
-   proved for non-singleton patterns under explicit identifier-hygiene side conditions (active run ids unique,
-   drawn ids fresh, records name existing patterns, the receiver remembers none of the note's runs as finished).
+   proved for ALL patterns, singleton ones included (a singleton pattern must have at least two blocks: a one-block
+   pattern completes with its first event and never has an active run), under explicit identifier-hygiene side
+   conditions (active run ids unique, drawn ids fresh, records name existing patterns, the receiver remembers none
+   of the note's runs as finished).
    Cluster (C03_replicas_equal): with replication messages delivered between consecutive inputs, for EVERY routing
    of the stream, all replicas hold the same runs after every input; together with C03_step_depends_on_table_only
    whichever instance receives the next input - in particular any survivor of any crash - reports exactly what a
@@ -57,14 +59,15 @@ Proof. exact crun_tables_equal_partial. Qed.
 (* one synchronous replication step keeps a replica equal to the sender, bucket by bucket *)
 Theorem C03_sync_step :
   forall (E : Type) (cfg : config E) (gen : nat -> nat -> Z),
-    cfg_wf E cfg -> (forall ph pat p, get_pattern cfg ph pat = Some p -> p_single p = false) ->
+    cfg_wf E cfg ->
+    (forall ph pat p, get_pattern cfg ph pat = Some p -> p_single p = true -> (2 <= length (p_blocks p))%nat) ->
     forall i j (si sj si' : dstate E) (e : E) (n : note E),
       beq E (d_runs sj) (d_runs si) ->
       Inv E (icfg cfg gen i) (d_runs si) -> Inv E (icfg cfg gen j) (d_runs sj) ->
       NoDup (map (@r_id E) (rt_all (d_runs si))) ->
       (forall k r, (d_next si <= k)%nat -> In r (rt_all (d_runs si)) -> r_id r <> gen i k) ->
-      Forall (known_ns E (icfg cfg gen j)) (n_comp n) -> Forall (known_ns E (icfg cfg gen j)) (n_halt n) ->
-      Forall (known_ns E (icfg cfg gen j)) (n_upd n) ->
+      Forall (known E (icfg cfg gen j)) (n_comp n) -> Forall (known E (icfg cfg gen j)) (n_halt n) ->
+      Forall (known E (icfg cfg gen j)) (n_upd n) ->
       filter_msg (icfg cfg gen j) sj n = n ->
       local_step (icfg cfg gen i) si e = Ok (si', n) ->
       beq E (d_runs (fst (remote_apply (icfg cfg gen j) sj n))) (d_runs si').
@@ -73,7 +76,8 @@ Proof. exact sync_step_holds. Qed.
 (* the cluster, from the initial state, for every routing of every stream *)
 Theorem C03_replicas_equal :
   forall (E : Type) (cfg : config E) (gen : nat -> nat -> Z),
-    cfg_wf E cfg -> (forall ph pat p, get_pattern cfg ph pat = Some p -> p_single p = false) ->
+    cfg_wf E cfg ->
+    (forall ph pat p, get_pattern cfg ph pat = Some p -> p_single p = true -> (2 <= length (p_blocks p))%nat) ->
     forall n inp ss' ns,
       crun_ok E cfg gen (repeat d_init n) inp ->
       crun cfg gen (repeat d_init n) inp = Some (ss', ns) -> tables_beq E ss'.
